@@ -19,6 +19,16 @@ func (r *runner) checkAdmission(pre *preState, submitted *built, accepted bool, 
 	ctx := r.ctx
 	direct := op.K == "tx" || op.K == "group" || op.K == "resub" || op.K == "twin"
 	if submitted != nil {
+		for _, m := range submitted.members {
+			for _, t := range m.touches {
+				if blocked[t.id] && !accepted {
+					ctx.Probe("blacklisted_refused")
+					if !w.cfg.IsFork(pre.height+1, types.ForkAccountBlacklist) {
+						ctx.Probe("blacklisted_refused_before_fork_height")
+					}
+				}
+			}
+		}
 		in := false
 		for _, h := range appeared {
 			if h == submitted.hash {
